@@ -118,7 +118,7 @@ pub fn run_ops_iso(tok: &Tokenizer, nw: usize, ops: &[Op], lattice: bool, wbase:
                     let wk = &mut workers[*w - 1];
                     wk.tokenize();
                     let mut e = json!({"ev": "tok", "w": w + wbase, "toks": tokens_json(wk)});
-                    if lattice && wk.verif_sentence_len() > 0 {
+                    if lattice && wk.verif_sentence_len() > 0 && wk.verif_sentence_len() <= 64 {
                         e["lat"] = lattice_json(wk);
                     }
                     ev.push(e);
@@ -185,8 +185,23 @@ pub fn open_session(si: &SessionIn, out: &mut Vec<Value>) -> Option<Tokenizer> {
             return None;
         }
     };
-    let tok = Tokenizer::new(dict);
+    let mut tok = Tokenizer::new(dict);
     let space = si.d.space_cat();
+    // the option setters are plain setters: the LAST call decides.  Half of the sessions (decided by
+    // their content) first set the opposite / another value and then the wanted one.
+    if (si.ops.len() + si.nw + si.mgl) % 2 == 1 {
+        tok = tok.max_grouping_len(if si.mgl == 0 { 2 } else { 0 });
+        if space >= 0 {
+            tok = match tok.ignore_space(!si.isp) {
+                Ok(t) => t,
+                Err(_) => {
+                    out.push(json!({"ev": "session", "D": si.d.to_json(), "O": {"isp": false, "mgl": si.mgl}, "nw": si.nw}));
+                    out.push(json!({"ev": "isp_result", "ok": false, "space": space}));
+                    return None;
+                }
+            };
+        }
+    }
     let tok = match tok.ignore_space(si.isp) {
         Ok(t) => {
             out.push(json!({"ev": "session", "D": si.d.to_json(), "O": {"isp": si.isp, "mgl": si.mgl}, "nw": si.nw}));
@@ -221,6 +236,17 @@ pub fn gen_session(rng: &mut Rng, cfg: &GenCfg, nops: usize, max_len: usize, lat
     let mut ops = vec![];
     let mut pool: Vec<Vec<u32>> = (0..4).map(|_| gen_sentence(rng, &d, max_len)).collect();
     pool.push(vec![]);
+    if rng.chance(1, 6) {
+        // a sentence of more than 256 characters (counters and offsets wider than one byte), made of a short one repeated
+        let base = gen_sentence(rng, &d, max_len.min(6).max(2));
+        if !base.is_empty() {
+            let mut long = vec![];
+            while long.len() < 257 + rng.below(40) {
+                long.extend_from_slice(&base);
+            }
+            pool.push(long);
+        }
+    }
     let mut has_cnt = vec![false; nw];
     let mut tokd = vec![false; nw];
     while ops.len() < nops {
